@@ -37,6 +37,7 @@ class TLCResult:
         self.queue = 0
         self.coverage = {}         # action name -> (distinct, total)
         self.tagged = {}           # tag -> list of decoded json values
+        self.all_violations = []   # with extra=("-continue",): [(invariant name, trace text)]
         self.wall_s = 0.0
         self.cmd = ""
         self.tail = ""
@@ -182,7 +183,9 @@ def run(module, cfg, workers=16, simulate=None, depth=None, seed=None, coverage=
                 del tail[:200]
             m = re.match(r"Error: Invariant (\w+) is violated", line)
             if m:
-                res.violated = m.group(1)
+                if res.violated is None:
+                    res.violated = m.group(1)
+                res.all_violations.append([m.group(1), []])
                 in_trace = True
                 continue
             m = re.match(r"Error: Action property (\w+) is violated", line) or \
@@ -215,6 +218,8 @@ def run(module, cfg, workers=16, simulate=None, depth=None, seed=None, coverage=
                 res.coverage[m.group(1)] = (int(m.group(3)), int(m.group(4)))
             if in_trace and len(trace_lines) < 4000:
                 trace_lines.append(line)
+            if in_trace and res.all_violations and len(res.all_violations[-1][1]) < 400:
+                res.all_violations[-1][1].append(line)
         proc.wait(timeout=timeout)
     finally:
         if proc.poll() is None:
@@ -222,6 +227,7 @@ def run(module, cfg, workers=16, simulate=None, depth=None, seed=None, coverage=
         shutil.rmtree(meta, ignore_errors=True)
         # TLC drops <module>_TTrace / states dirs next to the spec on some errors
     res.trace = "\n".join(trace_lines)
+    res.all_violations = [(n, "\n".join(t)) for n, t in res.all_violations]
     res.tail = "\n".join(tail[-60:])
     res.wall_s = time.time() - t0
     res.ok = res.completed and res.violated is None and res.error is None and proc.returncode == 0
